@@ -70,7 +70,7 @@ class TLCResult:
         self.postcondition_failed = bool(re.search(r"[Pp]ost-?condition", out) and "Error" in out) and not self.violated
         self.ok = (rc == 0 and "Model checking completed. No error has been found." in out) or \
                   (rc == 0 and "Finished in" in out and "Error" not in out)
-        self.printed = [m[0] for m in re.findall(r"^<<(.*)>>(\s+(TRUE|FALSE))?$", out, re.M)]
+        self.printed = balanced_tuples(out)
         self.diameter = None
         m = re.search(r"The depth of the complete state graph search is (\d+)", out)
         if m:
@@ -92,6 +92,44 @@ class TLCResult:
     def errtrace(self):
         i = self.out.find("Error:")
         return self.out[i:i + 6000] if i >= 0 else ""
+
+
+def balanced_tuples(out):
+    """Bodies of the <<...>> values TLC printed at the start of a line (TLC
+    pretty-prints long tuples over several lines)."""
+    res = []
+    i = 0
+    n = len(out)
+    while True:
+        j = out.find("<<", i)
+        if j < 0:
+            break
+        if j > 0 and out[j - 1] != "\n":
+            i = j + 2
+            continue
+        depth, k, instr = 0, j, False
+        while k < n:
+            ch = out[k]
+            if instr:
+                if ch == "\\":
+                    k += 1
+                elif ch == '"':
+                    instr = False
+            elif ch == '"':
+                instr = True
+            elif out.startswith("<<", k):
+                depth += 1
+                k += 1
+            elif out.startswith(">>", k):
+                depth -= 1
+                k += 1
+                if depth == 0:
+                    break
+            k += 1
+        body = out[j + 2:k - 1]
+        res.append(re.sub(r"\s*\n\s*", " ", body).strip())
+        i = k + 1
+    return res
 
 
 def split_top(s):
